@@ -3,6 +3,15 @@ from .common import *
 
 
 def rb(rng, n):
+    """random bytes; now and then a degenerate pattern (all zero, all ones, one byte repeated): data for which a chaining
+    value, a keystream block or a difference collapses"""
+    r = rng.random()
+    if n and r < 0.06:
+        if r < 0.03:
+            return bytes(n)
+        if r < 0.045:
+            return bytes([255] * n)
+        return bytes([rng.getrandbits(8)] * n)
     return bytes(rng.getrandbits(8) for _ in range(n))
 
 
